@@ -1,6 +1,7 @@
 import DirectVerif.Model.Shift
 import DirectVerif.Model.Fft
 import DirectVerif.Lemmas.C01Shift
+import Mathlib.Algebra.BigOperators.Group.List.Basic
 /-!
 # C01 — Fourier operators are exact inverse pairs; shift helpers are mutual inverses and equal the
 reference shift for odd and even lengths
@@ -133,5 +134,192 @@ example : ifftshift1 [0, 1, 2, 3, 4] = [2, 3, 4, 0, 1] := by decide
 example : fftshift1 [0, 1, 2, 3] = [2, 3, 0, 1] ∧ ifftshift1 [0, 1, 2, 3] = [2, 3, 0, 1] := by decide
 example : fftshift1 (fftshift1 [0, 1, 2]) ≠ [0, 1, 2] := by decide   -- the wrong pairing fails on odd n
 example : rollOne (-7) [0, 1, 2, 3, 4] = rollOne 3 [0, 1, 2, 3, 4] := by decide
+
+/-! ## Part 2: `fft2` / `ifft2` as interpreted plans
+
+`Backend` abstracts what the plan calls: the two shifts, `torch.fft.fftn/ifftn` for a given `norm`,
+and the two layout views.  `Lawful` lists the laws; they are *proved* for the one-axis list backend
+(from Part 1, for every length) and for the n-D per-axis backend (from per-axis laws), and *assumed*
+only for `torch.fft` itself (`inv_fwd`/`fwd_inv`: `ifftn(norm) ∘ fftn(norm) = id`). -/
+
+structure Lawful {X} (B : Backend X) : Prop where
+  fshift_ishift : ∀ x, B.fshift (B.ishift x) = x
+  ishift_fshift : ∀ x, B.ishift (B.fshift x) = x
+  inv_fwd : ∀ nm x, B.transform true nm (B.transform false nm x) = x
+  fwd_inv : ∀ nm x, B.transform false nm (B.transform true nm x) = x
+  viewC_viewR : ∀ x, B.viewComplex (B.viewReal x) = x
+  viewR_viewC : ∀ x, B.viewReal (B.viewComplex x) = x
+
+/-- **the backward transform undoes the forward transform** for every combination of
+`centered`, `normalized`, `complex_input` — for any lawful backend. -/
+theorem ifft2_fft2_id_of_lawful {X} {B : Backend X} (h : Lawful B) (cfg : Cfg) (x : X) :
+    ifft2 B cfg (fft2 B cfg x) = x := by
+  obtain ⟨c, n, ci⟩ := cfg
+  cases c <;> cases n <;> cases ci <;>
+    simp [ifft2, fft2, runData, fft2Plan, ifft2Plan, Guard.holds, applyOp, h.fshift_ishift,
+      h.ishift_fshift, h.inv_fwd, h.viewC_viewR, h.viewR_viewC]
+
+theorem fft2_ifft2_id_of_lawful {X} {B : Backend X} (h : Lawful B) (cfg : Cfg) (x : X) :
+    fft2 B cfg (ifft2 B cfg x) = x := by
+  obtain ⟨c, n, ci⟩ := cfg
+  cases c <;> cases n <;> cases ci <;>
+    simp [ifft2, fft2, runData, fft2Plan, ifft2Plan, Guard.holds, applyOp, h.fshift_ishift,
+      h.ishift_fshift, h.fwd_inv, h.viewC_viewR, h.viewR_viewC]
+
+/-- the one-axis list backend is lawful for **every length** (odd, even, 1, 0) as soon as the
+transform pair is an inverse pair -/
+theorem listBackend_lawful {α} (F : Bool → Norm → List α → List α)
+    (hif : ∀ nm xs, F true nm (F false nm xs) = xs) (hfi : ∀ nm xs, F false nm (F true nm xs) = xs) :
+    Lawful (listBackend F) where
+  fshift_ishift := fftshift_ifftshift_id
+  ishift_fshift := ifftshift_fftshift_id
+  inv_fwd := hif
+  fwd_inv := hfi
+  viewC_viewR := fun _ => rfl
+  viewR_viewC := fun _ => rfl
+
+/-- **`ifft2 ∘ fft2 = id`** on one axis: every length, every element type, all 8 flag combinations -/
+theorem ifft2_fft2_id {α} (F : Bool → Norm → List α → List α)
+    (hif : ∀ nm xs, F true nm (F false nm xs) = xs) (hfi : ∀ nm xs, F false nm (F true nm xs) = xs)
+    (cfg : Cfg) (xs : List α) :
+    ifft2 (listBackend F) cfg (fft2 (listBackend F) cfg xs) = xs :=
+  ifft2_fft2_id_of_lawful (listBackend_lawful F hif hfi) cfg xs
+
+/-- **`fft2 ∘ ifft2 = id`** on one axis -/
+theorem fft2_ifft2_id {α} (F : Bool → Norm → List α → List α)
+    (hif : ∀ nm xs, F true nm (F false nm xs) = xs) (hfi : ∀ nm xs, F false nm (F true nm xs) = xs)
+    (cfg : Cfg) (xs : List α) :
+    fft2 (listBackend F) cfg (ifft2 (listBackend F) cfg xs) = xs :=
+  fft2_ifft2_id_of_lawful (listBackend_lawful F hif hfi) cfg xs
+
+/-! ### n-D: per-axis application along a duplicate-free axis tuple -/
+
+theorem applyAxes_cons {X} (op : Nat → X → X) (d : Nat) (ds : List Nat) (x : X) :
+    applyAxes op (d :: ds) x = applyAxes op ds (op d x) := rfl
+
+/-- an operator on axis `d` moves through operators on other axes -/
+theorem applyAxes_comm {X} (f : X → X) (g : Nat → X → X) (ds : List Nat)
+    (hc : ∀ d' ∈ ds, ∀ x, f (g d' x) = g d' (f x)) (x : X) :
+    f (applyAxes g ds x) = applyAxes g ds (f x) := by
+  induction ds generalizing x with
+  | nil => rfl
+  | cons d ds ih =>
+    rw [applyAxes_cons, applyAxes_cons, ih (fun d' hd' => hc d' (List.mem_cons_of_mem _ hd')),
+      hc d (List.mem_cons_self ..)]
+
+/-- per-axis inverse pairs that commute across different axes cancel along any duplicate-free
+axis list (pair, triple, …) -/
+theorem applyAxes_cancel {X} (f g : Nat → X → X) (dims : List Nat) (hnd : dims.Nodup)
+    (hinv : ∀ d x, f d (g d x) = x)
+    (hcomm : ∀ d d', d ≠ d' → ∀ x, f d (g d' x) = g d' (f d x)) (x : X) :
+    applyAxes f dims (applyAxes g dims x) = x := by
+  induction dims generalizing x with
+  | nil => rfl
+  | cons d ds ih =>
+    rw [List.nodup_cons] at hnd
+    rw [applyAxes_cons, applyAxes_cons,
+      applyAxes_comm (f d) g ds (fun d' hd' => hcomm d d' (fun e => hnd.1 (e ▸ hd'))),
+      hinv, ih hnd.2]
+
+/-- per-axis laws: each axis has mutually inverse shifts and an inverse transform pair; operators
+acting on *different* axes commute (true of any per-axis lifting such as `Tensor.alongAxis`;
+validated by the correspondence check, not proved) -/
+structure AxisLaws {X} (sI sF : Nat → X → X) (F : Bool → Norm → Nat → X → X) (vC vR : X → X) : Prop where
+  sF_sI : ∀ d x, sF d (sI d x) = x
+  sI_sF : ∀ d x, sI d (sF d x) = x
+  inv_fwd : ∀ nm d x, F true nm d (F false nm d x) = x
+  fwd_inv : ∀ nm d x, F false nm d (F true nm d x) = x
+  comm_sF_sI : ∀ d d', d ≠ d' → ∀ x, sF d (sI d' x) = sI d' (sF d x)
+  comm_sI_sF : ∀ d d', d ≠ d' → ∀ x, sI d (sF d' x) = sF d' (sI d x)
+  comm_F : ∀ nm d d', d ≠ d' → ∀ x, F true nm d (F false nm d' x) = F false nm d' (F true nm d x)
+  comm_F' : ∀ nm d d', d ≠ d' → ∀ x, F false nm d (F true nm d' x) = F true nm d' (F false nm d x)
+  vC_vR : ∀ x, vC (vR x) = x
+  vR_vC : ∀ x, vR (vC x) = x
+
+theorem axesBackend_lawful {X} {sI sF : Nat → X → X} {F : Bool → Norm → Nat → X → X} {vC vR : X → X}
+    (h : AxisLaws sI sF F vC vR) (dims : List Nat) (hnd : dims.Nodup) :
+    Lawful (axesBackend sI sF F vC vR dims) where
+  fshift_ishift := applyAxes_cancel sF sI dims hnd h.sF_sI h.comm_sF_sI
+  ishift_fshift := applyAxes_cancel sI sF dims hnd h.sI_sF h.comm_sI_sF
+  inv_fwd := fun nm => applyAxes_cancel (F true nm) (F false nm) dims hnd (h.inv_fwd nm) (h.comm_F nm)
+  fwd_inv := fun nm => applyAxes_cancel (F false nm) (F true nm) dims hnd (h.fwd_inv nm) (h.comm_F' nm)
+  viewC_viewR := h.vC_vR
+  viewR_viewC := h.vR_vC
+
+/-- **n-D inverse law**: for every duplicate-free axis pair / triple / tuple and all 8 flag
+combinations, `ifft2 ∘ fft2 = id` and `fft2 ∘ ifft2 = id`. -/
+theorem ifft2_fft2_id_axes {X} {sI sF : Nat → X → X} {F : Bool → Norm → Nat → X → X} {vC vR : X → X}
+    (h : AxisLaws sI sF F vC vR) (dims : List Nat) (hnd : dims.Nodup) (cfg : Cfg) (x : X) :
+    ifft2 (axesBackend sI sF F vC vR dims) cfg (fft2 (axesBackend sI sF F vC vR dims) cfg x) = x ∧
+    fft2 (axesBackend sI sF F vC vR dims) cfg (ifft2 (axesBackend sI sF F vC vR dims) cfg x) = x :=
+  ⟨ifft2_fft2_id_of_lawful (axesBackend_lawful h dims hnd) cfg x,
+   fft2_ifft2_id_of_lawful (axesBackend_lawful h dims hnd) cfg x⟩
+
+/-! ### energy -/
+
+/-- **energy preservation**: if the shifts, the views and the `norm="ortho"` transform preserve an
+energy functional, the normalised `fft2` and `ifft2` preserve it, for every `centered` /
+`complex_input`. -/
+theorem fft2_energy_of_isometry {X R} (B : Backend X) (E : X → R)
+    (hI : ∀ x, E (B.ishift x) = E x) (hS : ∀ x, E (B.fshift x) = E x)
+    (hF : ∀ inv x, E (B.transform inv .ortho x) = E x)
+    (hC : ∀ x, E (B.viewComplex x) = E x) (hR : ∀ x, E (B.viewReal x) = E x)
+    (cfg : Cfg) (hn : cfg.normalized = true) (x : X) :
+    E (fft2 B cfg x) = E x ∧ E (ifft2 B cfg x) = E x := by
+  obtain ⟨c, n, ci⟩ := cfg
+  subst hn
+  cases c <;> cases ci <;>
+    simp [ifft2, fft2, runData, fft2Plan, ifft2Plan, Guard.holds, applyOp, hI, hS, hF, hC, hR]
+
+/-- the energy of one axis: any additive weight of the entries (e.g. `|·|²`) -/
+def energy {α M} [AddCommMonoid M] (w : α → M) (xs : List α) : M := (xs.map w).sum
+
+theorem energy_rollOne {α M} [AddCommMonoid M] (w : α → M) (s : Int) (xs : List α) :
+    energy w (rollOne s xs) = energy w xs :=
+  ((rollOne_perm s xs).map w).sum_eq
+
+/-- **`fft2_energy`** on one axis, every length: shifts never change the energy, so the normalised
+transforms preserve it as soon as the orthonormal per-axis transform is an isometry. -/
+theorem fft2_energy {α M} [AddCommMonoid M] (w : α → M) (F : Bool → Norm → List α → List α)
+    (hF : ∀ inv xs, energy w (F inv .ortho xs) = energy w xs)
+    (cfg : Cfg) (hn : cfg.normalized = true) (xs : List α) :
+    energy w (fft2 (listBackend F) cfg xs) = energy w xs ∧
+    energy w (ifft2 (listBackend F) cfg xs) = energy w xs :=
+  fft2_energy_of_isometry (listBackend F) (energy w)
+    (fun x => energy_rollOne w _ x) (fun x => energy_rollOne w _ x) hF (fun _ => rfl) (fun _ => rfl) cfg hn xs
+
+/-! ### which exception the glue raises -/
+
+/-- a negative entry in `dim` is rejected with `TypeError` before anything else, for every flag
+combination, shape and dtype -/
+theorem fft2_rejects_negative_dim (cfg : Cfg) (dims : List Int) (s : VState) (h : ∃ d ∈ dims, d < 0) :
+    validate cfg dims fft2Plan s = .error .typeError ∧ validate cfg dims ifft2Plan s = .error .typeError := by
+  have hall : dims.all dimOk = false := by
+    obtain ⟨d, hd, hneg⟩ := h
+    rw [List.all_eq_false]
+    exact ⟨d, hd, by simp [dimOk]; omega⟩
+  constructor <;>
+    simp [validate, fft2Plan, ifft2Plan, List.foldlM, Guard.holds, validateOp, hall] <;> rfl
+
+/-- with the (…, 2) float layout, anything but float32 is rejected with `ValueError` once `dim` is
+valid (float16 / float64 → complex32 / complex128 fail `verify_fft_dtype_possible`) -/
+theorem fft2_rejects_non_single (c n : Bool) (dims : List Int) (shape : List Nat) (dt : DType)
+    (hdt : dt = .float16 ∨ dt = .float64) (hd : dims.all dimOk = true)
+    (hs : validateShift dims ⟨shape, (dt.viewComplex).getD .other⟩ = .ok ⟨shape, (dt.viewComplex).getD .other⟩) :
+    validate ⟨c, n, true⟩ dims fft2Plan ⟨shape ++ [2], dt⟩ = .error .valueError := by
+  rcases hdt with rfl | rfl <;> cases c <;>
+    simp [validate, fft2Plan, List.foldlM, Guard.holds, validateOp, hd, DType.viewComplex, dtypeOk] at hs ⊢ <;>
+    simp [hs, bind, Except.bind]
+
+example : validate ⟨true, true, true⟩ [1, 2] fft2Plan ⟨[2, 3, 5, 2], .float32⟩ = .ok ⟨[2, 3, 5, 2], .float32⟩ := by decide
+example : validate ⟨true, true, true⟩ [1, -2] fft2Plan ⟨[2, 3, 5, 2], .float32⟩ = .error .typeError := by decide
+example : validate ⟨true, true, true⟩ [1, 2] fft2Plan ⟨[2, 3, 5, 2], .float64⟩ = .error .valueError := by decide
+example : validate ⟨false, true, false⟩ [0, 1] ifft2Plan ⟨[3, 5], .float32⟩ = .error .valueError := by decide
+example : validate ⟨false, true, false⟩ [0, 1] ifft2Plan ⟨[4, 8], .float32⟩ = .ok ⟨[4, 8], .complex64⟩ := by decide
+/-- non-vacuity of `Lawful`/`AxisLaws`: the identity transform pair on lists -/
+example : Lawful (listBackend (α := Nat) fun _ _ xs => xs) := listBackend_lawful _ (fun _ _ => rfl) (fun _ _ => rfl)
+example : AxisLaws (X := Nat) (fun _ x => x) (fun _ x => x) (fun _ _ _ x => x) id id := by
+  constructor <;> intros <;> rfl
+example : fft2 (listBackend fun _ _ xs => xs) ⟨true, true, true⟩ [0, 1, 2, 3, 4] = [0, 1, 2, 3, 4] := by decide
 
 end DirectVerif.C01
